@@ -60,7 +60,8 @@ type c13Host struct {
 	releases []c13Release
 	failures []c13Failure
 	waiting  int
-	streak   int // failures since the last success
+	streak   int           // lower bound of the limiter's failure count: +1 per failure, -1 per success reported once the penalty is over
+	penEnd   time.Duration // end of the last penalty as far as the statement's minimum goes
 }
 
 func (h *c13Host) checkLog(capacity int, rate float64, name string) string {
@@ -172,6 +173,7 @@ func c13RunBucket(c c13Case, log *[]string) (viol string, nontrivial bool, class
 			if c13IsPenalty(ev.Status) {
 				h.streak++
 				f.minPen = c13MinPenalty(h.streak)
+				h.penEnd = now + f.minPen
 				cl["penalty-status"] = true
 				if h.streak >= 3 {
 					cl["penalty-streak>=3"] = true
@@ -213,7 +215,12 @@ func c13RunBucket(c c13Case, log *[]string) (viol string, nontrivial bool, class
 			tb.mu.Unlock()
 			say("success")
 			h.mu.Lock()
-			h.streak = 0
+			// a success reported after the penalty forgets ONE past failure ("slowly forget past errors"), it does not wipe
+			// the streak: the next failure still doubles from where the count stands
+			if time.Since(start) >= h.penEnd && h.streak > 0 {
+				h.streak--
+				cl["success-forgets-one-failure"] = true
+			}
 			h.mu.Unlock()
 			if rateAfter < rateBefore-c13Eps {
 				return fmt.Sprintf("event %d: a success lowered the refill rate from %.6f/s to %.6f/s", i, rateBefore, rateAfter), false, nil
@@ -434,6 +441,7 @@ func c13RunManager(c c13Case, log *[]string) (viol string, nontrivial bool, clas
 			if c13IsPenalty(ev.Status) {
 				h.streak++
 				f.minPen = c13MinPenalty(h.streak)
+				h.penEnd = now + f.minPen
 				hadFailure = true
 			} else if ev.Status >= 500 {
 				h.streak++
@@ -446,7 +454,9 @@ func c13RunManager(c c13Case, log *[]string) (viol string, nontrivial bool, clas
 			bm.OnSuccess(hn)
 			say("%s success", hn)
 			h.mu.Lock()
-			h.streak = 0
+			if time.Since(start) >= h.penEnd && h.streak > 0 {
+				h.streak--
+			}
 			h.mu.Unlock()
 		}
 		synctest.Wait()
